@@ -315,7 +315,7 @@ Section RW.
     | AdfTemp =>
         if negb m_full then (ErrAdfPartialMem, [])
         else match convert_data tb m s vals with None => (ErrConvert, []) | Some l => (Ok, l) end
-    | Hdf5InSitu => (Ok, map (hconv m s) vals)
+    | Hdf5InSitu => if supported m s then (Ok, map (hconv m s) vals) else (ErrConvert, [])   (* H5Dwrite cannot convert compound <-> atomic *)
     end.
 
   (* cgi_array_general_write (rank 1): arrays = the parent's DataArray_t children *)
@@ -358,7 +358,7 @@ Section RW.
                  | None => (ErrConvert, mem)
                  | Some l => (Ok, l)
                  end
-        | Hdf5InSitu => (Ok, splice m_rmin (map (hconv s m) stored) mem)
+        | Hdf5InSitu => if supported s m then (Ok, splice m_rmin (map (hconv s m) stored) mem) else (ErrConvert, mem)
         end
     | (e, _) => (e, mem)
     end.
@@ -394,7 +394,7 @@ End RW.
 (* ------------------------------------------------------------------ extraction entry points *)
 Inductive op :=
 | OpWrite (name : Z) (s : dtype) (s_dim rmin rmax : Z) (m : dtype) (m_dim m_rmin m_rmax : Z) (mem : list Z)
-| OpRead (name : Z) (rmin rmax : Z) (m : dtype) (m_dim m_rmin m_rmax : Z) (mem : list Z)
+| OpRead (chk_char : bool) (name : Z) (rmin rmax : Z) (m : dtype) (m_dim m_rmin m_rmax : Z) (mem : list Z)
 | OpReadAs (name : Z) (m : dtype)
 | OpInfo (name : Z).
 Inductive ores := RStatus (s : status) | RData (s : status) (d : list Z) | RInfo (t : dtype) (dim : Z) | RNone.
@@ -403,10 +403,13 @@ Definition step (tb : cast_tab) (be : backend) (st : list arr) (o : op) : list a
   match o with
   | OpWrite n s sd lo hi m md mlo mhi mem =>
       let (e, st') := general_write c_cast tb be st n s sd lo hi m md mlo mhi mem in (st', RStatus e)
-  | OpRead n lo hi m md mlo mhi mem =>
+  | OpRead chk n lo hi m md mlo mhi mem =>
       match find_arr n st with
       | None => (st, RStatus ErrNotFound)
-      | Some a => let (e, d) := general_read c_cast tb be a lo hi m md mlo mhi mem in (st, RData e d)
+      | Some a =>
+          (* cg_array_general_read: "Character array can only be read as character" (cgnslib.c) *)
+          if chk && negb (dtype_eqb m C1) && dtype_eqb (a_type a) C1 then (st, RData ErrCharOnly mem)
+          else let (e, d) := general_read c_cast tb be a lo hi m md mlo mhi mem in (st, RData e d)
       end
   | OpReadAs n m =>
       match find_arr n st with
